@@ -136,8 +136,21 @@ func ReadUint32(rd io.Reader) (uint32, error) {
 	return val, nil
 }
 
+// readBlockSize is the largest size that is allocated before the data has been read
+const readBlockSize = 4096
+
 // ReadNBytes reads n bytes from the reader
 func ReadNBytes(n int, rd io.Reader) ([]byte, error) {
+	// n may come from a length field of untrusted input: never allocate more than
+	// what the reader really delivers (plus one block)
+	if n > readBlockSize {
+		b, err := io.ReadAll(io.LimitReader(rd, int64(n)))
+		if err == nil && len(b) < n {
+			err = io.ErrUnexpectedEOF
+		}
+		return b, err
+	}
+
 	var b []byte = make([]byte, n)
 	// a single Read may return less than n bytes without error, so read until b is full
 	num, err := io.ReadFull(rd, b)
